@@ -265,11 +265,90 @@ def rule_dct_definition(ctx):
         ctx.ok(rid, "dct|definition", "%d transforms (n = 2 .. 256, both directions) equal the definition within 1e-4" % rows, nontrivial=True, fn=f)
 
 
+def rule_hornuss(ctx):
+    """the generic Hornuss transform, evaluated from MIR, equals its definition"""
+    from .. import absint
+    rid = "R-HORNUSS-DEF"
+    ctx.rule(rid, "transform_hornuss (one routine for every target; the x86 dispatchers call it too) is evaluated from MIR on the 64 "
+                  "unit impulses and a dense block - the coefficient grid supplied through modelled MutableSubgrid::get / get_mut, the "
+                  "2x2 butterfly aux_idct2_in_place::<2> from its definition - and compared with the definition of the transform "
+                  "(ISO/IEC 18181-1, transform `Hornuss`): after the 2x2 IDCT of the four lowest coefficients, each 4x4 quadrant q takes "
+                  "its 16 coefficients c[y + 2 iy][x + 2 ix]; its mean m = c_q(0,0) - (sum of the other 15) / 16 goes to position (1,1) "
+                  "of the quadrant, the coefficient of (1,1) to position (0,0), and every position p != (1,1) holds coefficient(p) + m "
+                  "(position (0,0): coefficient(1,1) + m).  Exact equality up to 1e-6")
+    cr = ctx.prog.crate("jxl_render")
+    f = cr.fns.get("jxl_render::vardct::generic::transform::transform_hornuss")
+    if f is None or f.argc != 1:
+        ctx.anchor_missing(rid, "jxl_render::vardct::generic::transform::transform_hornuss(&mut MutableSubgrid)")
+        return
+    ctx.seen(f)
+
+    def ref(c):
+        c = list(c)
+        c00, c01, c10, c11 = c[0], c[1], c[8], c[9]
+        c[0], c[1], c[8], c[9] = c00 + c01 + c10 + c11, c00 + c01 - c10 - c11, c00 - c01 + c10 - c11, c00 - c01 - c10 + c11
+        out = [0.0] * 64
+        for y in range(2):
+            for x in range(2):
+                q = [[c[(y + iy * 2) * 8 + x + ix * 2] for ix in range(4)] for iy in range(4)]
+                resid = sum(q[iy][ix] for iy in range(4) for ix in range(4)) - q[0][0]
+                m = q[0][0] - resid / 16.0
+                for iy in range(4):
+                    for ix in range(4):
+                        if (ix, iy) == (1, 1):
+                            v = m
+                        elif (ix, iy) == (0, 0):
+                            v = q[1][1] + m
+                        else:
+                            v = q[iy][ix] + m
+                        out[(y * 4 + iy) * 8 + x * 4 + ix] = v
+        return out
+
+    def run(coeffs):
+        grid = list(coeffs)
+        ev = absint.Evaluator(ctx.prog, max_steps=500000)
+
+        def idct2(args):
+            c00, c01, c10, c11 = grid[0], grid[1], grid[8], grid[9]
+            grid[0], grid[1], grid[8], grid[9] = c00 + c01 + c10 + c11, c00 + c01 - c10 - c11, c00 - c01 + c10 - c11, c00 - c01 - c10 + c11
+            return ()
+        ev.intercept = {"MutableSubgrid::<'_, V>::get": lambda a: grid[a[2] * 8 + a[1]],
+                        "MutableSubgrid::<'g, V>::get_mut": lambda a: absint.ElemRef(grid, a[2] * 8 + a[1]),
+                        "MutableSubgrid::<'_, V>::get_mut": lambda a: absint.ElemRef(grid, a[2] * 8 + a[1]),
+                        "transform::aux_idct2_in_place": idct2}
+        ev.call_fn(f, [absint.Ref(("ext", "coeff"))])
+        return grid
+
+    inputs = [[1.0 if i == k else 0.0 for i in range(64)] for k in range(64)] + [[float((i * 7 + 3) % 11 - 5) * 0.25 for i in range(64)]]
+    rows, bad, undec = 0, None, None
+    for k, x in enumerate(inputs):
+        try:
+            got = run(x)
+        except absint.Unsupported as e:
+            undec = str(e)
+            break
+        rows += 1
+        want = ref(x)
+        d = [i for i in range(64) if not isinstance(got[i], (int, float)) or abs(got[i] - want[i]) > 1e-6]
+        if d and bad is None:
+            bad = (("impulse at coefficient (%d, %d)" % (k % 8, k // 8)) if k < 64 else "dense block", d[0] % 8, d[0] // 8, got[d[0]], want[d[0]], len(d))
+    ctx.count(rid + ".rows", rows)
+    if undec:
+        ctx.bad(rid, "hornuss|not-evaluable", "transform_hornuss is no longer a function the evaluator can decide (%s)" % undec, fn=f)
+        return
+    ctx.floor(rid + ".rows", 65)
+    if bad:
+        ctx.bad(rid, "hornuss|definition", "%s: sample (%d, %d) is %r, the definition gives %.6f (%d samples of the block differ)" % bad, fn=f)
+    else:
+        ctx.ok(rid, "hornuss|definition", "65 blocks (every impulse, one dense) equal the definition", nontrivial=True, fn=f)
+
+
 def main(pid, tier, repo=None):
     ctx = Ctx(pid, tier, configs=("workspace",), repo=repo)
     rule_dispatch(ctx)
     rule_vec_secants(ctx)
     rule_dct_definition(ctx)
+    rule_hornuss(ctx)
     specconst.run(ctx, pid)
     from . import enummap
     enummap.run(ctx, pid)
